@@ -2,8 +2,8 @@ SPECIFICATION GSpec
 CONSTANTS
   Procs <- P3
   Dev <- DevAsIs
-  Scenarios <- ScnAll
-  Focus = "all"
+  Scenarios <- ScnBoot3
+  Focus = "boot3"
 INVARIANT GenInv
 INVARIANT TxnLockAgree
 INVARIANT DoneMeansCommitted
